@@ -124,3 +124,13 @@ reg('C15', engine='llsym',
     note='Trusted: clang IR, llsym semantics, CPython str layout/contracts in vf/pystubs.py. Strings <= 2 (3) code '
          'points, arrays <= 4 (5) elements.',
     technique='symbolic execution of LLVM IR, SMT (z3 bit-vectors)')
+
+reg('C04', engine='llsym',
+    text='Bounded symbolic execution of the real do_cast/cast_to_integer_or_char for every integer/char target type '
+         'and every source kind with the source value symbolic (Python int of any magnitude, every finite double, '
+         'bytes, str code point, pointer address): the cast never fails and the stored bytes equal the value truncated '
+         'toward zero reduced modulo 2**bits (0/1 for _Bool); pointer -> uintptr_t -> pointer keeps the address.',
+    note='Trusted: clang IR, llsym semantics (incl. z3 FP for float sources), CPython contracts in vf/pystubs.py, '
+         'the float.__int__ model described in the assumptions. Primitive cdata sources and __int__ protocol objects '
+         'not covered.',
+    technique='symbolic execution of LLVM IR, SMT (z3 bit-vectors + floating point)')
